@@ -313,6 +313,8 @@ def build_instance(init):
     else:
         g = torch.Generator().manual_seed(int(init["iseed"]))
         locs = torch.rand(B, N, 2, generator=g)
+    if init.get("offset"):
+        locs = locs + float(init["offset"])  # rounded to float32 here: the oracle works on the very same coordinates
     if kind == "pdp":
         inst = TensorDict({"depot": locs[:, 0].clone(), "locs": locs[:, 1:].clone()}, batch_size=[B])
     else:
@@ -415,6 +417,7 @@ class C09Harness:
         self.tr.torchrl = self.stepping != "default"
         self.popts = init.get("pol") or {}
         ctx.event(f"stepping:{self.stepping}")
+        ctx.event(f"coords:offset={init.get('offset', 0)}|{'N>25' if self.N > 25 else 'N<=25'}")
         for k_, v_ in self.popts.items():
             if POL_DEFAULT.get(k_) != v_:
                 ctx.event(f"policy_option:{k_}={v_}")
@@ -667,12 +670,14 @@ def inits(draw, tier="quick"):
     init = {"env": kind}
     if kind == "tsp":
         init["k"] = draw(st.sampled_from([2, 2, 3, 4, 5]))
+        # (26-32 nodes: above the size from which torch's pairwise-distance kernels switch to the matmul formulation)
         init["n"] = draw(st.one_of(st.integers(4, 8), st.integers(4, nmax),
-                                   st.integers(min(2 * init["k"] + 1, nmax), nmax)))
+                                   st.integers(min(2 * init["k"] + 1, nmax), nmax), st.integers(26, 32)))
         N = init["n"]
     else:
         init["k"] = 0
-        init["n"] = 2 * draw(st.one_of(st.integers(2, 4), st.integers(2, nmax // 2)))
+        init["n"] = 2 * draw(st.one_of(st.integers(2, 4), st.integers(2, nmax // 2), st.integers(2, nmax // 2),
+                                       st.integers(13, 16)))
         N = init["n"] + 1
     init["B"] = draw(st.sampled_from([1, 2, 2, 3, 4, 4]))
     init["init_sol"] = draw(st.sampled_from(["random", "greedy"]))
@@ -681,6 +686,9 @@ def inits(draw, tier="quick"):
         init["pts"] = draw(st.lists(st.integers(0, 16), min_size=init["B"] * N * 2, max_size=init["B"] * N * 2))
     else:
         init["iseed"] = draw(st.integers(0, 2 ** 20))
+    # map-style coordinates: the unit square translated far from the origin (generator options min_loc / max_loc, real
+    # data sets); float32 still resolves the differences, so every length keeps its value up to ~1e-4 relative
+    init["offset"] = draw(st.sampled_from([0, 0, 0, 100, 1000, -500]))
     init["rseed"] = draw(st.integers(0, 2 ** 20))
     init["wseed"] = draw(st.integers(0, 2))
     init["spread"] = draw(st.sampled_from([1.0, 2.0]))
